@@ -32,7 +32,7 @@ func (t *Throttle) Go(fn func() error) error {
 	return t.pool.Submit(func() {
 		defer t.wg.Done()
 		if err := fn(); err != nil {
-			t.errCh <- err
+			t.report(err)
 		}
 	})
 }
@@ -47,9 +47,20 @@ func (t *Throttle) Do() error {
 
 func (t *Throttle) Done(err error) {
 	if err != nil {
-		t.errCh <- err
+		t.report(err)
 	}
 	t.wg.Done()
+}
+
+// report hands a worker's error to Finish without ever blocking: Finish drains errCh only
+// after every worker is done and returns just the first error, so one that does not fit the
+// channel any more adds nothing, while waiting for room would keep the worker, and with it
+// Finish, from ever completing.
+func (t *Throttle) report(err error) {
+	select {
+	case t.errCh <- err:
+	default:
+	}
 }
 
 // Finish waits until all workers have finished working. It returns the first
